@@ -85,8 +85,30 @@ def split_pc(lf):
     return xc, oc
 
 
+_FLIP = {'<': '>', '>': '<', '<=': '>=', '>=': '<=', '==': '==', '!=': '!='}
+
+
+def canon_cond(c):
+    """printed form of a comparison that does not depend on how it is spelled: a > b, b < a -> 'a - b > 0'"""
+    if not isinstance(c, alg.Cond):
+        return str(c)
+    try:
+        d = sp.expand(sp.sympify(c.a) - sp.sympify(c.b))
+        rel = c.rel()
+        if d != 0 and d.as_ordered_terms()[0].as_coeff_Mul()[0] < 0:
+            d, rel = -d, _FLIP[rel]
+        return '%s %s 0' % (d, rel)
+    except Exception:
+        return str(c)
+
+
 def mode_key(oc):
-    return tuple(sorted(set(str(c) for c in oc)))
+    return tuple(sorted(set(canon_cond(c) for c in oc)))
+
+
+def is_reversed(c, a, b):
+    """True when the comparison says a > b (in either spelling)"""
+    return canon_cond(c) == canon_cond(alg.Cond('fcmp', 'ogt', sp.Symbol(a, real=True), sp.Symbol(b, real=True))) if isinstance(c, alg.Cond) else False
 
 
 def thresholds(lv):
@@ -430,12 +452,13 @@ def bell_gen(ctx, res, parb):
             nuse += 1
             if nuse > 40:
                 continue
-        rev = any(isinstance(c, alg.Cond) and c.rel() == '>' and str(c.a) == 'p0_' and str(c.b) == 'p1_' for c in lf.pc)
+        rev = any(is_reversed(c, 'p0_', 'p1_') for c in lf.pc)
         for f in ('a_trajbell_pos', 'a_trajbell_vel', 'a_trajbell_acc'):
             fn2, dom2, lv2 = res[f]
             modes = sorted(set(mode_key(split_pc(l)[1]) for l in lv2))
             modes = [m for m in modes if m] or [()]
-            want_mode = [m for m in modes if (('p0 > p1' in ' '.join(m)) == rev)]
+            revkey = canon_cond(alg.Cond('fcmp', 'ogt', S('p0'), S('p1')))
+            want_mode = [m for m in modes if ((revkey in m) == rev)]
             m = want_mode[0] if want_mode else modes[0]
             for b in bounds:
                 left = leaf_at(lv2, b - sp.Rational(1, 2), par_small(parb), m)
